@@ -38,12 +38,31 @@ def _do(job):
         return R.fin_case(copy.deepcopy(case))
     if kind == "hist":
         return R.rand_history_lines(random.Random(case["seed"]), case["steps"])
+    if kind == "shape":
+        return R.shape_case(case)
+    if kind == "exc":
+        return R.exc_case(case)
     raise ValueError(kind)
 
 
 def fin_key(clause, inp):
     return "%s:%s:%s:%s:%s" % (clause, inp["shape"], "passthrough" if inp["pt"] else "wrapped",
                                "callbacks" if inp["ncb"] else "nocallbacks", inp["method"])
+
+
+LENGTH_SETTERS = ("set_data", "data_set", "freeze", "stream_write", "stream_writelines")
+
+
+def shape_key(clause, ln):
+    """ShapeContentLength is keyed by whether the body was replaced through the `response` attribute after the
+    last operation that (re)computed or dropped the length (open finding F101); other clauses by the last operation"""
+    hist = ln["hist"]
+    if clause == "ShapeContentLength":
+        last = max([i for i, h in enumerate(hist) if h["o"] in LENGTH_SETTERS and h["exc"] == ""], default=-1)
+        tag = "assign-after-length" if any(h["o"] == "assign" for h in hist[last + 1:]) else "other"
+    else:
+        tag = hist[-1]["o"] if hist else "none"
+    return "%s:%s:%s" % (clause, tag, ln["init"]["kind"])
 
 
 def judge_jobs(ctx: Ctx, jobs, kind="c05"):
@@ -61,7 +80,12 @@ def judge_jobs(ctx: Ctx, jobs, kind="c05"):
                 cases.append((k, case))
     for ln in lines:
         ctx.count(1)
-        if ln["op"] == "hdr":
+        if ln["op"] == "shape":
+            ctx.nontrivial.add(("shape", ln["init"]["kind"], ln["init"]["pt"], tuple((h["o"], h["k"], h["b"], h["exc"]) for h in ln["hist"][:3]),
+                                ln["method"] == "HEAD", ln["code"]))
+        elif ln["op"] == "exc":
+            ctx.nontrivial.add(("exc", ln["cls"], ln["via"], ln["method"], ln["out"]["exc"], len(ln["hb"])))
+        elif ln["op"] == "hdr":
             c = ln["c"]
             if any(10 in v or 13 in v for v in c["vs"] + [c["kv"]] + [v for p in c["ps"] for v in p["vs"]]):
                 ctx.nontrivial.add(("hdr", c["m"], c["form"], len(ln["pre"]), ln["exc"]))
@@ -75,7 +99,11 @@ def judge_jobs(ctx: Ctx, jobs, kind="c05"):
     for r in rejects:
         ln = lines[r["t"]]
         k, case = cases[r["t"]]
-        if k == "hdr":
+        if k == "shape":
+            ctx.violation(shape_key(r["clause"], ln), r["clause"], case, kind="shape")
+        elif k == "exc":
+            ctx.violation(f"{r['clause']}:{ln['cls']}:{ln['via']}", r["clause"], case, kind="exc")
+        elif k == "hdr":
             c = ln["c"]
             ctx.violation(f"{r['clause']}:{c['m']}:{c['form'] or '-'}", r["clause"], case, kind="hdr")
         else:
@@ -89,6 +117,44 @@ def _mutants(ctx: Ctx, module, cfgs):
         ctx.notes.setdefault("broken_model_variants_rejected", {})[cfg] = r.invariant_violated
         if not r.invariant_violated:
             raise tlc.MachineryError(f"broken model variant {cfg} satisfies every invariant: the invariants are vacuous")
+
+
+SHAPE_MUTANTS = ["MCB_shape_orig_freeze", "MCB_shape_strict_length"]
+FIN_COMBOS = [("GET", 200), ("HEAD", 200), ("GET", 204), ("POST", 304), ("HEAD", 204), ("POST", 200)]
+
+
+def growth_jobs(ctx: Ctx, rng):
+    """body-shape histories (TLC model check + exported LTS replayed + seeded histories) and exceptions as responses"""
+    q = ctx.quick
+    ctx.assumptions += [
+        "shape histories: an iterable must be closed exactly once when it is the wrapped body at finalisation or werkzeug itself "
+        "advanced it first (make_sequence / get_data / freeze / calculate_content_length / stream); an iterable the application "
+        "replaced before anyone advanced it, or consumed itself through iter_encoded(), only must not be closed twice",
+        "shape histories never set Content-Length themselves: every Content-Length in the output was computed by werkzeug",
+        "exceptions: raising ValueError from get_response is accepted as the refusal of a CR/LF value only when a header-bound "
+        "argument (methods, units, scheme/realm, new_url) contains CR or LF; for HEAD the Content-Length is compared with the GET twin",
+    ]
+    ctx.model_check(AREA, "MCShape", "MCQ_shape", timeout=900)
+    if not q:
+        ctx.model_check(AREA, "MCShape", "MCT_shape", timeout=3000)
+        ctx.model_check(AREA, "MCShape", "MCT_shape0", timeout=3000)
+    _mutants(ctx, "MCShape", SHAPE_MUTANTS[:1] if q else SHAPE_MUTANTS)
+    trans = [v for v in ctx.export(AREA, "MCShape", "MCX_shape" if q else "MCX_shape3", timeout=1800, count_states=False)
+             if isinstance(v, dict) and "pre" in v]
+    cases = R.shape_paths(trans)
+    ctx.notes["exported_shape_transitions"] = len(trans)
+    if len(cases) < 0.9 * len(trans) or len(cases) < 1000:
+        raise tlc.MachineryError(f"shape export: {len(trans)} transitions but only {len(cases)} replayable paths")
+    jobs = []
+    for n, c in enumerate(cases):
+        for j in range(1 if q else 2):
+            m, code = FIN_COMBOS[(n + 3 * j) % len(FIN_COMBOS)]
+            jobs.append(("shape", {"init": c["init"], "ops": c["ops"], "method": m, "code": code, "ncb": (n + j) % 2}))
+    for _ in range(1500 if q else 40000):
+        jobs.append(("shape", R.rand_shape_case(rng)))
+    for spec in R.exception_specs(rng, 6 if q else 80):
+        jobs.append(("exc", spec))
+    return jobs
 
 
 def run(ctx: Ctx):
@@ -142,8 +208,11 @@ def run(ctx: Ctx):
         if n % 3 == 0:
             R.with_history(rng, inp, rng.randint(1, 5))
         jobs.append(("fin", inp))
+    jobs += growth_jobs(ctx, rng)
     lines = judge_jobs(ctx, jobs)
     for ln in lines[:: max(1, len(lines) // 5)]:
+        if ln["op"] in ("shape", "exc"):
+            continue
         if ln["op"] == "fin":
             i, o = ln["inp"], ln["out"]
             ctx.sample({"shape": i["shape"], "items": [R.txt(x["v"]) if x["k"] == "s" else bytes(x["v"]).hex() for x in i["items"]],
@@ -158,6 +227,8 @@ def run(ctx: Ctx):
 def replay(ctx: Ctx, data):
     case = data["case"]
     kind = data.get("kind") or ("fin" if "shape" in case else "hdr")
+    if kind == "c05":
+        kind = "fin" if "shape" in case else "hdr"
     ctx.sample(case)
     ctx.nontrivial.update({("replay", 0), ("replay", 1)})
     judge_jobs(ctx, [(kind, case)])
